@@ -235,6 +235,9 @@ func (c *evalCtx) lookupIdent(name string) (TVal, bool) {
 	if e, ok := c.lets[name]; ok {
 		return c.eval(e), true
 	}
+	if strings.HasPrefix(name, "$") {
+		return TVal{V: Sc{c.ex.ghostComp(c.st, name), BV(64)}, T: types.Typ[types.Uint64]}, true
+	}
 	switch name {
 	case "true":
 		return boolTV("true"), true
@@ -702,6 +705,74 @@ func (c *evalCtx) evalCall(x *ECall) TVal {
 			c.errf("old() used where no pre-state exists")
 		}
 		return c.withState(c.old).eval(x.Args[0])
+	case "atlock":
+		if c.ex.lockSnap == nil {
+			c.errf("atlock() used in a function that takes no lock")
+		}
+		return c.withState(c.ex.lockSnap).eval(x.Args[0])
+	case "strbytes":
+		lit, ok := x.Args[0].(*EStr)
+		if !ok {
+			c.errf("strbytes() needs a string literal")
+		}
+		v := new(big.Int)
+		for i := len(lit.S) - 1; i >= 0; i-- {
+			v.Lsh(v, 8)
+			v.Or(v, big.NewInt(int64(lit.S[i])))
+		}
+		n := 8 * len(lit.S)
+		return TVal{V: Sc{bvLit(v, n), BV(n)}, T: types.Typ[types.Uint64]}
+	case "cat":
+		// concatenation in memory order: the first argument occupies the lowest addresses
+		var parts []string
+		w := 0
+		for i := len(x.Args) - 1; i >= 0; i-- {
+			v := c.eval(x.Args[i])
+			if v.C != nil {
+				c.errf("cat(): untyped constant argument (convert it)")
+			}
+			if s, isStr := v.V.(Sc); isStr && s.S == SFP {
+				// float64 fields are laid out by their IEEE bit pattern
+				b := c.ex.vc.Fresh("f64bits", BV(64))
+				c.ex.vc.Assume(eq(app("(_ to_fp 11 53)", b), s.T))
+				parts = append(parts, b)
+				w += 64
+				continue
+			}
+			s := sc(v.V)
+			if !s.S.IsBV() {
+				c.errf("cat(): argument %d is not a bit-vector", i)
+			}
+			parts = append(parts, s.T)
+			w += s.S.Width()
+		}
+		t := parts[0]
+		if len(parts) > 1 {
+			t = "(concat " + strings.Join(parts, " ") + ")"
+		}
+		return TVal{V: Sc{t, BV(w)}, T: types.Typ[types.Uint64]}
+	case "bytesAt":
+		// bytesAt(slice, off, n): the n bytes slice[off:off+n] as a packed vector (n constant)
+		sl, off, nn := arg(0), arg(1), arg(2)
+		if nn.C == nil {
+			c.errf("bytesAt(): length must be a constant")
+		}
+		n := int(nn.C.Int64())
+		read, _ := c.ex.elemReader(c.st, sl.V, sl.T)
+		o := c.idx64(off)
+		parts := make([]string, 0, n)
+		for i := n - 1; i >= 0; i-- {
+			parts = append(parts, sc(read(app("bvadd", o, bvInt(int64(i), 64)))).T)
+		}
+		t := parts[0]
+		if len(parts) > 1 {
+			t = "(concat " + strings.Join(parts, " ") + ")"
+		}
+		return TVal{V: Sc{t, BV(8 * n)}, T: types.Typ[types.Uint64]}
+	case "msg":
+		v := arg(0)
+		s := sc(v.V)
+		return TVal{V: Sc{c.ex.msgId(s), BV(64)}, T: types.Typ[types.Uint64]}
 	case "len":
 		v := arg(0)
 		return TVal{V: Sc{c.ex.lenOf(c.st, v.V, v.T), BV(64)}, T: types.Typ[types.Int]}
@@ -802,6 +873,9 @@ func (c *evalCtx) evalCall(x *ECall) TVal {
 	case "Verify":
 		pk, msg, sig := arg(0), arg(1), arg(2)
 		return boolTV(app("Verify", sc(pk.V).T, sc(msg.V).T, sc(sig.V).T))
+	case "TimeUnix":
+		c.ex.vc.DeclareFun("TimeUnix", []Sort{BV(64)}, BV(64))
+		return TVal{V: Sc{app("TimeUnix", sc(arg(0).V).T), BV(64)}, T: types.Typ[types.Int64]}
 	case "fpIsNaN":
 		return boolTV(app("fp.isNaN", sc(arg(0).V).T))
 	case "fpIsInf":
